@@ -3,14 +3,15 @@
     CSeq     : a sequential pipeline `source(One) -> map -> filter -> flat_map` across a real
                block boundary: the consumer side `Start(1 sender) -> chain` is driven with the
                producer's elements cut into batches (every batch mode is some cutting) *)
-From Noir Require Import Base.Elem Model.Start Model.Ops Proofs.StartSpec Proofs.OpsSpec Corr.Canon.
+From Noir Require Import Base.Elem Model.Start Model.Ops Model.Ops2 Proofs.StartSpec Proofs.OpsSpec Corr.Canon Corr.ZooCorr.
 From Coq Require Import NArith.
 Open Scope Z_scope.
 
 Inductive case :=
 | CReorder (input : list (elem Z)) (out : list (elem Z))
 | CSeq (addc modm rep : Z) (batches : list (nat * list (elem Z))) (out : list (elem Z))
-| CJob (addc modm rep n : Z) (out : list Z).   (* whole sequential job over 0..n-1 on the engine *)
+| CJob (addc modm rep n : Z) (out : list Z)    (* whole sequential job over 0..n-1 on the engine *)
+| CZoo (ops : list zop) (input out : list (elem Z)).  (* a random chain of element-wise API operators, one block *)
 
 Definition zout_eqb := list_eqb (elem_eqb Z.eqb).
 
@@ -28,6 +29,7 @@ Definition corr_ok (c : case) : bool :=
   | CJob a m r n out =>
       (* the model of the whole path: the chain machine over the source's elements *)
       list_eqb Z.eqb (payloads (run (seq_chain a m r) (map (fun i => Item (Z.of_nat i)) (seq 0 (Z.to_nat n))))) out
+  | CZoo ops input out => zout_eqb (strip_fb (run (zoo_machine ops) input)) (strip_fb out)
   end.
 
 (** the property on the implementation output *)
@@ -67,6 +69,15 @@ Definition prop_ok (c : case) : bool :=
       let src := map Z.of_nat (seq 0 (Z.to_nat n)) in
       list_eqb Z.eqb out (flat_map (fun v => repeat v (Z.to_nat r))
                            (filter (fun v => negb (Z.eqb (Z.modulo v m) 0)) (map (fun v => v + a) src)))
+  | CZoo ops input out0 =>
+      (* behaves like the iterator chain: same values, same order; every control element of
+         the input (watermarks aside, which add/drop_timestamps create / remove) is forwarded
+         once, in place *)
+      let out := strip_fb out0 in
+      list_eqb Z.eqb (payloads out) (zoo_spec ops (payloads input)) &&
+      list_eqb (elem_eqb (fun _ _ => true))
+        (filter (fun e => match e with FAR | Terminate => true | _ => false end) out)
+        (filter (fun e => match e with FAR | Terminate => true | _ => false end) input)
   end.
 
 Definition known_class (c : case) : N := 0%N.
